@@ -163,7 +163,8 @@ func c02FamBound(n int) int64 {
 	return 2_000_000 + 100_000*x + 15*x*x*x
 }
 
-func c02Family(c *explore.Ctx, s *explore.SubStats, f *gen.Family, n int) {
+// c02Family reports whether the case stayed within its bounds.
+func c02Family(c *explore.Ctx, s *explore.SubStats, f *gen.Family, n int) (ok bool) {
 	text := f.Make(n)
 	rendered := fmt.Sprintf("family=%s n=%d bytes=%d", f.Name, n, len(text))
 	explore.Crumb(s.Name, rendered)
@@ -176,7 +177,7 @@ func c02Family(c *explore.Ctx, s *explore.SubStats, f *gen.Family, n int) {
 	if perr != nil {
 		s.Skipped++
 		s.Outcome(f.Name + ":does-not-parse")
-		return
+		return true
 	}
 	budget := c02FamBound(n)
 	var errs gqlerror.List
@@ -191,16 +192,21 @@ func c02Family(c *explore.Ctx, s *explore.SubStats, f *gen.Family, n int) {
 	}
 	if r.Panicked {
 		if r.Budget {
-			bad("budget family="+f.Name, fmt.Sprintf("Validate: %s on a %d-byte document (n=%d); polynomial bound %d steps", r.PanicVal, len(text), n, budget))
+			kind := "budget"
+			if strings.Contains(r.PanicVal, "call depth") {
+				kind = "depth"
+			}
+			bad(kind+" family="+f.Name, fmt.Sprintf("Validate: %s on a %d-byte document (n=%d); polynomial bound %d steps", r.PanicVal, len(text), n, budget))
 		} else {
 			bad("panic site="+r.Site+" msg="+normMsg(r.PanicVal)+" family="+f.Name, "Validate panicked: "+r.PanicVal+"\n"+trimStack(r.Stack))
 		}
 		s.Outcome(f.Name + ":violation")
-		return
+		return false
 	}
 	s.Nontrivial++
 	s.Outcome(fmt.Sprintf("%s:errors=%v", f.Name, len(errs) > 0))
 	s.Sample(func() any { return rendered })
+	return true
 }
 
 func runC02(c *explore.Ctx) {
@@ -254,6 +260,7 @@ func runC02(c *explore.Ctx) {
 			for n := 32; n <= maxN; n *= 2 {
 				ns = append(ns, n)
 			}
+			reported := false
 			for _, n := range ns {
 				idx++
 				if idx%c.NShards != c.Shard {
@@ -263,9 +270,17 @@ func runC02(c *explore.Ctx) {
 					s.Cap("deadline")
 					break
 				}
+				if reported {
+					// the cost of a family grows with n, and a case that exceeds its bound runs until the bound
+					// (15·n³ steps) is used up: the larger members of a family this worker has reported are left out
+					s.Skipped++
+					continue
+				}
 				s.States++
 				s.Transitions++
-				c02Family(c, s, f, n)
+				if !c02Family(c, s, f, n) && n >= 24 {
+					reported = true
+				}
 			}
 		}
 		s.WallS = time.Since(t0).Seconds()
